@@ -138,11 +138,12 @@ func NewNetwork() *Network {
 }
 
 type Memberlist struct {
-	net     *Network
-	cfg     *Config
-	self    *Node
-	members map[string]*Node // this node's view (includes itself)
-	left    bool
+	net      *Network
+	cfg      *Config
+	self     *Node
+	members  map[string]*Node // this node's view (includes itself)
+	left     bool
+	shutdown bool // Shutdown has returned: the process has released its name and address
 	// deadSeen: incarnations (node objects) this observer has been told are gone. memberlist
 	// orders alive/dead notices by incarnation: an "alive" for an incarnation known dead is ignored,
 	// a new incarnation of the same name overrides the old one.
@@ -168,20 +169,22 @@ func Create(cfg *Config) (*Memberlist, error) {
 	n.mu.Lock()
 	defer n.mu.Unlock()
 	if old, dup := n.nodes[cfg.Name]; dup {
-		if !old.crashed {
+		if !old.crashed && !old.shutdown {
 			return nil, fmt.Errorf("fakeml: duplicate node %q", cfg.Name)
 		}
 		// the process comes back under its old name (a restart after a crash): a new incarnation.
 		// Notices about the old incarnation that are still under way are void (memberlist orders
 		// them by incarnation number and the new incarnation refutes a stale "dead").
-		kept := n.pending[:0]
-		for _, p := range n.pending {
-			if p.Node != nil && p.Node.Name == cfg.Name {
-				continue
+		if old.crashed {
+			kept := n.pending[:0]
+			for _, p := range n.pending {
+				if p.Node != nil && p.Node.Name == cfg.Name {
+					continue
+				}
+				kept = append(kept, p)
 			}
-			kept = append(kept, p)
+			n.pending = kept
 		}
-		n.pending = kept
 		for _, tab := range []map[string]map[string]int{n.leaveAt, n.mergeAt} {
 			for _, m := range tab {
 				delete(m, cfg.Name)
@@ -339,6 +342,7 @@ func (m *Memberlist) Leave(timeout time.Duration) error {
 func (m *Memberlist) Shutdown() error {
 	m.net.mu.Lock()
 	m.left = true
+	m.shutdown = true
 	delete(m.net.byAddr, fmt.Sprintf("%s:%d", m.cfg.BindAddr, m.cfg.BindPort))
 	m.net.mu.Unlock()
 	return nil
@@ -596,6 +600,14 @@ func (n *Network) NodeNames() (names []string, left map[string]bool) {
 }
 
 // Knows reports whether node a has node b in its membership view.
+// IsShutdown: the node of that name has left and shut down (its name may be taken by a new process).
+func (n *Network) IsShutdown(name string) bool {
+	n.mu.Lock()
+	defer n.mu.Unlock()
+	m := n.nodes[name]
+	return m != nil && m.shutdown
+}
+
 func (n *Network) Knows(a, b string) bool {
 	n.mu.Lock()
 	defer n.mu.Unlock()
